@@ -282,7 +282,7 @@ func runCase(c *Case) Obs {
 				}
 			}
 		}()
-		wait := 250 * time.Millisecond
+		wait := 120 * time.Millisecond
 		if o.Class == "ok" {
 			wait = 15 * time.Second
 		}
@@ -496,25 +496,40 @@ func supervise(cs []Case, outdir string) []Obs {
 	}
 	// a "hang" (20 s watchdog while 12 workers share the machine and SplitPQ is a clock-seeded Pollard rho) is
 	// CONFIRMED before it counts: the case is run again, alone, with a 120 s limit
+	limit := "120"
+	if v := os.Getenv("C06_HANG_RETRY_S"); v != "" {
+		limit = v
+	}
+	os.Setenv("C06_WATCHDOG_S", limit)
+	sem := make(chan struct{}, 4) // at most four re-runs at a time, each in its own process
+	var rwg sync.WaitGroup
 	for i := range obs {
 		if obs[i].Class != "hang" {
 			continue
 		}
 		hangRetries++
-		os.Setenv("C06_WATCHDOG_S", "120")
-		r := superviseRange(casesPath, cs, i, i+1, fmt.Sprintf("retry%d", i))
-		os.Unsetenv("C06_WATCHDOG_S")
-		o2, ok := r[i]
-		if !ok {
-			continue
-		}
-		o2.HangRetried = true
-		if o2.Class == "hang" {
-			hangsConfirmed++
-			o2.ErrText += " (confirmed: the case was run a second time, alone, with a 120 s limit)"
-		}
-		obs[i] = o2
+		rwg.Add(1)
+		go func(i int) {
+			defer rwg.Done()
+			sem <- struct{}{}
+			defer func() { <-sem }()
+			r := superviseRange(casesPath, cs, i, i+1, fmt.Sprintf("retry%d", i))
+			o2, ok := r[i]
+			if !ok {
+				return
+			}
+			o2.HangRetried = true
+			mu.Lock()
+			if o2.Class == "hang" {
+				hangsConfirmed++
+				o2.ErrText += " (confirmed: the case was run a second time on its own with a " + limit + " s limit)"
+			}
+			obs[i] = o2
+			mu.Unlock()
+		}(i)
 	}
+	rwg.Wait()
+	os.Unsetenv("C06_WATCHDOG_S")
 	of, _ := os.Create(filepath.Join(outdir, "obs.jsonl"))
 	ow := bufio.NewWriter(of)
 	for i := range obs {
@@ -723,6 +738,9 @@ func direct(c *Case, o *Obs) (string, string) {
 		why := "watchdog"
 		if o.Rejected != "" {
 			why = "the conformant server refused the client's message: " + o.Rejected
+		}
+		if o.HangRetried {
+			why += "; confirmed by running the case a second time on its own with the long limit"
 		}
 		return bad("CreateConnection never returned (%s)", why)
 	}
